@@ -1,5 +1,6 @@
 import Driver.Common
 import SSV.Model.SaltPool
+import SSV.Model.SaltPoolFast
 import SSV.Gen.C03
 open SSV SSV.SaltPool
 
@@ -38,6 +39,23 @@ def stepC03 (st : State) (line : String) : State × String :=
           | (st', none) => (st', "bad-op")
         | none => (st, "bad-op")
       | _, _ => (st, "bad-op")
+  | ["present", salt, flags, ts, c, fb, g] =>
+      match parseReq salt flags ts, c.toList, fb.toList, g.toList with
+      | some r, [cb], [fbb], [gb] => match bit? cb, bit? fbb, bit? gb with
+        | some cont, some fbv, some gv =>
+          let res := handleStream genParams fbv gv cont st.now r st.pool
+          ({ st with pool := res.1 }, res.2.name)
+        | _, _, _ => (st, "bad-op")
+      | _, _, _, _ => (st, "bad-op")
+  | ["pfill", now, start, n, stp] => match now.toNat?, start.toNat?, n.toNat?, stp.toNat? with
+      | some t, some s0, some k, some d =>
+        -- long floods run on the fast representation, proved to compute the list model
+        -- (SSV.C03.fast_pool_refines; the driver's pool has distinct salts by SSV.C03.salts_stay_distinct)
+        let res := fcountAdds genParams (FPool.ofPool st.pool) (floodCalls t s0 k d)
+        let pool' := res.1.toPool
+        ({ st with pool := pool' }, s!"filled={res.2} len={pool'.length}")
+      | _, _, _, _ => (st, "bad-op")
+  | ["plen"] => (st, s!"{st.pool.length}")
   | ["padd", now, salt] => match now.toNat?, salt.toNat? with
       | some t, some s => let res := add genParams t s st.pool; ({ st with pool := res.1 }, b2s res.2)
       | _, _ => (st, "bad-op")
